@@ -164,8 +164,7 @@ def replay_findings(ctx):
 
 def run(ctx):
     step_stream(ctx)
-    with winlib.sanitized_histories():
-        streams.hist_corr(ctx, ents=W.ENTRIES, mix=MIX, name="history-correspondence (update-heavy)",
-                          nhist=ctx.n(24, 200), nops=(6, 12, 24))
+    streams.hist_corr(ctx, ents=W.ENTRIES, mix=MIX, name="history-correspondence (update-heavy)",
+                      nhist=ctx.n(24, 200), nops=(6, 12, 24))
     ref_stream(ctx)
     replay_findings(ctx)
